@@ -177,6 +177,7 @@ type Options struct {
 	ForceSlot int  // 0: choose like bbolt (valid meta with the larger txid); 1 or 2: use slot ForceSlot-1
 	NoContent bool // skip building the logical content (page accounting only)
 	PageSize  int  // if both metas are unreadable; 0 = try
+	NoParity  bool // do not require txid mod 2 == slot (hot-backup copies place the newer meta in slot 0 by design)
 }
 
 // PageSizeOf determines the page size of an image from either meta, 0 if impossible.
@@ -234,7 +235,7 @@ func Decode(img []byte, opt Options) *Result {
 	if int(m.PageSize) != ps {
 		r.errf("meta %d page size %d != %d", r.Chosen, m.PageSize, ps)
 	}
-	if m.Txid%2 != uint64(r.Chosen) {
+	if m.Txid%2 != uint64(r.Chosen) && !opt.NoParity {
 		r.errf("meta with txid %d sits in slot %d (expected txid mod 2)", m.Txid, r.Chosen)
 	}
 	if m.Pgid < 2 {
